@@ -144,23 +144,9 @@ Proof.
   - apply frozen_of_disk; assumption.
 Qed.
 
-(** ** A regular file: events without descriptor writes, or a single event, are written plainly *)
-Definition no_fd (evs : list wev) : bool := forallb (fun e => negb (is_fd e)) evs.
-
-Lemma file_of_events_no_fd : forall evs, no_fd evs = true -> file_of_events evs = text_of evs.
-Proof.
-  intros evs H. unfold file_of_events, text_of.
-  assert (E1 : filter is_fd evs = []).
-  { induction evs as [|e evs IH]; [reflexivity|]. cbn in *. apply andb_true_iff in H as [H1 H2].
-    apply negb_true_iff in H1. rewrite H1. now apply IH. }
-  assert (E2 : filter (fun e => negb (is_fd e)) evs = evs).
-  { induction evs as [|e evs IH]; [reflexivity|]. cbn in *. apply andb_true_iff in H as [H1 H2].
-    rewrite H1. f_equal. apply IH; [exact H2|]. cbn in E1. apply negb_true_iff in H1. rewrite H1 in E1. exact E1. }
-  rewrite E1, E2. reflexivity.
-Qed.
+(** ** A regular file holds the events' text in order *)
+Lemma file_of_events_text : forall evs, file_of_events evs = text_of evs.
+Proof. reflexivity. Qed.
 
 Lemma file_of_events_single : forall e, file_of_events [e] = wev_text e.
-Proof. intros e. unfold file_of_events. destruct e; cbn; now rewrite ?app_nil_r. Qed.
-
-Lemma no_fd_app : forall a b, no_fd (a ++ b) = no_fd a && no_fd b.
-Proof. intros. apply forallb_app. Qed.
+Proof. intros e. unfold file_of_events. cbn. apply app_nil_r. Qed.
